@@ -41,6 +41,8 @@ def run(repo, rep):
     from . import c02 as _c02
 
     rep.run_borrowed(_c02, {"C02-f": "C12-j"}, repo, only_sites=("propose_weight_buffering", "encode_weight_and_scale_tensor"))
+    rep.clause("C12-p", "storage sized from the tensor shape is what every operator writes: the brick format is refused when an operator's view differs from the tensor shape or a DMA copy touches the tensor [rule shared with C02-w]")
+    rep.run_borrowed(_c02, {"C02-w": "C12-p"}, repo)
     from . import c08 as _c08
 
     # the slice size recorded for the double buffers covers all cores (borrowed from the original lender: nested borrows are not replayed)
